@@ -5,10 +5,11 @@ from pathlib import Path
 V = Path(__file__).resolve().parent.parent
 props = [json.loads(l) for l in (V / 'properties.jsonl').read_text().splitlines() if l.strip()]
 checks, na = [], []
+READY = set((V / 'tools' / 'ready.txt').read_text().split())   # properties whose check I have validated on several seeds
 for p in props:
     pid = p['id']
     mf = V / 'harness' / 'meta' / (pid + '.json')
-    if mf.exists():
+    if mf.exists() and pid in READY:
         m = json.loads(mf.read_text())
         if m.get('not_applicable'):
             na.append({'property_id': pid, 'reason': m['not_applicable']})
